@@ -265,6 +265,48 @@ claim("C04",
       "equality of the numbers after rounding",
       "DESIGN.md section 6 C04")
 
+# clauses added in rounds 2-3 (DESIGN.md section 13b); appended to the claim text of the property
+LINTS = (" Package-wide disciplines checked in the property's modules: truthiness tests only on boolean-valued expressions "
+         "(TRUTH), no rounding / truncation / tolerance / fixed-precision formatting (LOSSY), no function modifies an "
+         "argument (PURE).")
+ADDENDA = {
+    "C01": " The graph is undirected in get_edge and in the neighbour enumeration of the graph kinetics (NEIGH); Iterate runs the "
+           "whole derivative pass before the update pass." + LINTS,
+    "C02": " The grid neighbour table is exactly GetNeighborIndex(coordinates of i, n) and is written nowhere else, graph edges are "
+           "registered from both ends (NBR-TABLE); un-coarse-graining gives each cell node value / node size (UNCG)." + LINTS,
+    "C03": " The chemostat map crosses the ctypes boundary as a c_int array (FFI); a state update depends on the flag of its own "
+           "entry and on no other entry's flag." + LINTS,
+    "C04": LINTS,
+    "C05": " Comparison operators return the comparison of the magnitudes itself (CMP); the array (op) array branch is dominated by "
+           "the length test (LEN)." + LINTS,
+    "C06": " _UnitsComponentDict.__eq__ is true only when all three components are equal (EQ3)." + LINTS,
+    "C07": " A diffusion event moves one molecule between a cell and that direction's neighbour, each half suppressed only by its own "
+           "chemostat flag (PAIR); every value returned by Poisson(lambda) is 0 or one draw of std::poisson_distribution(lambda) "
+           "from the engine's generator (TAU).",
+    "C08": " setup / _setup_grid / _setup_graph / simulate_script do not write through any alias of the caller's script (PY-PURE)."
+           + LINTS,
+    "C09": LINTS,
+    "C10": LINTS,
+    "C11": " An index formed by adding a value of no index kind to an index of a known kind is reported as unbounded; a Python buffer "
+           "built by a length-changing call (np.unique, set, filter ...) does not have the extent the engine is told.",
+    "C12": " A writer emits each key on every path except the two idioms whose absence reads back as the same value (COND-KEY); "
+           "str(UnitValue) prints str(value), a blank, the units (shared with C18)." + LINTS,
+    "C13": " get_value_in_env selects by membership (`in` / dict.get), never by truthiness (ENV)." + LINTS,
+    "C14": " The correction counter advances under exactly the conditions of a unit update of the drawn state (COUNT); the seed "
+           "handed to the engine is the script's and only a missing seed is drawn (SEED-PY)." + LINTS,
+    "C15": " No engine subscript addresses a cell through index arithmetic on another cell index (NBR-USE); are_neighbors returns "
+           "sum over the axes of the wrapped coordinate distance == 1, decided on the symbolically evaluated return value." + LINTS,
+    "C16": " The state accumulator is not an integer array (KIND); the coarse-grained script is the script with only its system "
+           "replaced (SCRIPT); the returned trajectory passes every RDTrajectory field from the coarse one (UNCG-TRAJ)." + LINTS,
+    "C17": LINTS,
+    "C18": " str(UnitValue) prints str(value) (no digits dropped)." + LINTS,
+    "C19": " The equation is cut at '->', '+' and at arbitrary whitespace inside a term (tokenisation)." + LINTS,
+    "C20": " UnitArray.set_value takes the number of a UnitValue item only after its dimension was compared with the array's on every "
+           "path (ITEMDIM)." + LINTS,
+}
+TECH_ADD = ("; canonicalisation before the rules (inventory-based helper inlining, accumulator promotion, enumerate / literal-loop "
+            "normalisation), symbolic evaluation of Python returns (pysym)")
+
 NOT_YET = {}
 
 def main():
@@ -274,6 +316,8 @@ def main():
         pid = p["id"]
         if pid in CLAIMS:
             text, tech, und, ref = CLAIMS[pid]
+            text = text + ADDENDA.get(pid, "")
+            tech = tech + TECH_ADD
             checks.append({
                 "property_id": pid,
                 "quick_cmd": "/venv/bin/python -m sa check %s --tier quick" % pid,
